@@ -312,6 +312,16 @@ func cmdSelftest(args []string) int {
 		}
 	}
 
+	// 5g. R-ERRSEEN
+	if fns, err := ssaSnippet(selftestErrSeen); err != nil {
+		check("ssa snippet errseen", false, "%v", err)
+	} else {
+		for name, want := range map[string]int{"wrongVar": 1, "rightVar": 0, "deferred": 0} {
+			got := len(errUnseenOnSuccess(fns[name]))
+			check("errUnseenOnSuccess/"+name, got == want, "%d errors unseen on a success path (want %d)", got, want)
+		}
+	}
+
 	// 6. every rule table entry that names a function has the documented key shape
 	var badKeys []string
 	for k := range c14NameFilterAllowed {
@@ -673,5 +683,37 @@ func (u *union) single(path string) int {
 		return v
 	}
 	return 0
+}
+`
+
+const selftestErrSeen = `package snippet
+
+import "errors"
+
+type wc struct{}
+
+func (wc) Write([]byte) (int, error) { return 0, nil }
+func (wc) Close() error              { return nil }
+
+func wrongVar(w wc, data []byte) error {
+	_, err := w.Write(data)
+	if closeErr := w.Close(); err != nil {
+		return errors.Join(err, closeErr)
+	}
+	return nil
+}
+
+func rightVar(w wc, data []byte) error {
+	_, err := w.Write(data)
+	if closeErr := w.Close(); err != nil || closeErr != nil {
+		return errors.Join(err, closeErr)
+	}
+	return nil
+}
+
+func deferred(w wc, data []byte) (retErr error) {
+	defer func() { retErr = errors.Join(retErr, w.Close()) }()
+	_, err := w.Write(data)
+	return err
 }
 `
